@@ -1,6 +1,6 @@
 (* C17: what scanner expiry (compactIfExpired inside the compaction scan) removes. *)
 From KB Require Import Base.Cases Model.Coder Model.CompactSys Model.C07Cases Model.C17Cases
-  Proofs.Coder Proofs.CompactSafe Proofs.CompactPass.
+  Proofs.Coder Proofs.CompactSafe Proofs.CompactReads Proofs.CompactWf Proofs.CompactPass.
 Local Open Scope N_scope.
 
 (* ---------- the timeout revision ---------- *)
@@ -146,21 +146,6 @@ Proof.
   apply IH; [intros y Hy; apply HP; right; exact Hy|exact H1|exact H2].
 Qed.
 
-(* ---------- membership in a sorted list ---------- *)
-
-Lemma in_insert_by {A} (lt : A -> A -> bool) x l y : In y (insert_by lt x l) <-> y = x \/ In y l.
-Proof.
-  induction l as [|z l IH]; cbn [insert_by].
-  - cbn. intuition congruence.
-  - destruct (lt z x); cbn [In]; [rewrite IH|]; intuition congruence.
-Qed.
-
-Lemma in_sort_by {A} (lt : A -> A -> bool) l y : In y (sort_by lt l) <-> In y l.
-Proof.
-  unfold sort_by. induction l as [|z l IH]; cbn [fold_right]; [reflexivity|].
-  rewrite in_insert_by, IH. cbn [In]. intuition congruence.
-Qed.
-
 (* ---------- sequential runs: what one engine delete can take away ---------- *)
 
 Lemma rec_eqb_eq x y : rec_eqb x y = true <-> x = y.
@@ -206,10 +191,6 @@ Proof.
   - intros y Hy. destruct (same_slot x y) eqn:Es; [right|left; apply in_del_slot; auto].
     split; [reflexivity|]. intros Hk. apply memb_spec. apply Hm. exact Hk.
 Qed.
-
-(* one index record per key *)
-Definition idx_unique (V : store) : Prop :=
-  forall k r d r' d', In (RIdx k r d) V -> In (RIdx k r' d') V -> r = r' /\ d = d'.
 
 (* the expiry decision of compactIfExpired *)
 Definition expire_kind (tr : N) (x : rec) : option dkind :=
@@ -534,4 +515,65 @@ Proof.
   destruct ((t_exp y =? 0) || (now <? t_exp y)) eqn:E.
   - exfalso. apply Hout. apply filter_In. split; assumption.
   - apply orb_false_iff in E as [E1 E2]. apply N.eqb_neq in E1. apply N.ltb_ge in E2. split; assumption.
+Qed.
+
+(* ---------- the index is removed by compare-and-delete: an Update landing between the scan's snapshot and
+   the removal of the index survives ---------- *)
+
+(* whatever the writers committed just before the call: a record that the call takes away shares the target's
+   slot, and the target itself - the value the scan saw - was what the engine held *)
+Lemma delcur_only_seen R x d adds o rest y :
+  d_oc d = (adds, o) :: rest -> d_dead d = false -> skipped (d_lf d) (rkey x) = false ->
+  In y (apply_env adds (d_store d)) -> ~ In y (d_store (engine_delete R KDelCur x d)) ->
+  same_slot x y = true /\ In x (apply_env adds (d_store d)).
+Proof.
+  intros Eo Ed Es Hy Hn. unfold engine_delete in Hn. rewrite Ed, Es, Eo in Hn.
+  destruct o; cbn [d_store] in Hn; try contradiction.
+  destruct (memb x (apply_env adds (d_store d))) eqn:Em; cbn [d_store] in Hn; [|contradiction].
+  split; [|apply memb_spec; exact Em].
+  destruct (same_slot x y) eqn:E; [reflexivity|]. exfalso. apply Hn. apply in_del_slot. split; assumption.
+Qed.
+
+(* the concrete window: the writer's commit (new index + new version at a fresh revision n) lands just before
+   the compare-and-delete of the index the scan saw: the compare fails, index and version of the Update stay *)
+Theorem expiry_respects_update R k r d n v d0 rest :
+  n <> r -> d_oc d0 = ([RIdx k n false; RVer k n v], OOk) :: rest ->
+  d_dead d0 = false -> skipped (d_lf d0) k = false ->
+  let d' := engine_delete R KDelCur (RIdx k r d) d0 in
+  In (RIdx k n false) (d_store d') /\ In (RVer k n v) (d_store d') /\
+  (exists sf, d_trace d' = mkStep KDelCur (RIdx k r d) OFailCond sf :: d_trace d0).
+Proof.
+  intros Hn Eo Ed Es. cbv zeta. unfold engine_delete. cbn [rkey]. rewrite Ed, Es, Eo. cbn [apply_env].
+  set (V1 := (del_slot (RIdx k n false) (d_store d0) ++ [RIdx k n false]) ++ [RVer k n v]).
+  assert (Hm : memb (RIdx k r d) V1 = false).
+  { destruct (memb (RIdx k r d) V1) eqn:Em; [|reflexivity]. exfalso. apply memb_spec in Em.
+    unfold V1 in Em. apply in_app_iff in Em as [Em|[Em|[]]]; [|discriminate].
+    apply in_app_iff in Em as [Em|[Em|[]]].
+    - apply in_del_slot in Em as [_ Em].
+      assert (same_slot (RIdx k n false) (RIdx k r d) = true) by (apply same_slot_idx; eauto). congruence.
+    - injection Em as E _. congruence. }
+  rewrite Hm. cbn [d_store d_trace]. split; [|split; [|eauto]].
+  - unfold V1. apply in_app_iff. left. apply in_app_iff. right. left. reflexivity.
+  - unfold V1. apply in_app_iff. right. left. reflexivity.
+Qed.
+
+(* the oracle accepts what the model produces for the TTL-choice cases, or names finding 1 on its signature *)
+Lemma c17_oracle_sound_ttl_choice prefix ettl k ttls :
+  c17_check (KTtlChoice prefix ettl k ttls) = true ->
+  c17_oracle (KTtlChoice prefix ettl k ttls) = None \/
+  (c17_oracle (KTtlChoice prefix ettl k ttls) = Some 1 /\ contains events_sub k = true /\ is_event_key prefix k = false).
+Proof.
+  cbn [c17_check c17_oracle]. intros H. apply andb_true_iff in H as [Hall Hne].
+  destruct (forallb (N.eqb 0) ttls) eqn:Ez; [left; reflexivity|].
+  destruct (is_event_key prefix k) eqn:Ee; [left; reflexivity|].
+  assert (Hc : contains events_sub k = true).
+  { destruct ttls as [|t ts]; [discriminate|]. cbn [forallb] in Hall, Ez.
+    apply andb_true_iff in Hall as [Ht Hts]. apply N.eqb_eq in Ht.
+    destruct (contains events_sub k) eqn:Ec; [reflexivity|]. exfalso.
+    assert (Hz : create_ttl ettl k = 0) by (unfold create_ttl; rewrite Ec; reflexivity).
+    rewrite Hz in *. subst t. cbn [N.eqb andb] in Ez.
+    assert (forallb (N.eqb 0) ts = true); [|congruence].
+    clear -Hts. induction ts as [|x ts IH]; [reflexivity|]. cbn [forallb] in *. apply andb_true_iff in Hts as [H1 H2].
+    rewrite H1. exact (IH H2). }
+  right. rewrite Hc. auto.
 Qed.
